@@ -22,5 +22,5 @@ def run(ctx):
     if not q:
         C += PC.text_holes(ctx, own, ks, vis=(4,), timeout=2400)
     C += PC.spell_holes(ctx, own, range(0, len(P.SPELL), 3) if q else range(len(P.SPELL)))
-    C += PC.label_holes(ctx, own, [P.skel('x = 1  # done'), P.skel('foo bar')] + _pipe.pick(ctx, 1, len(P.SKELS), 7) if q else range(len(P.SKELS)), vis=(4,) if q else (0, 4, 8))
+    C += PC.label_holes(ctx, own, [P.skel('x = 1  # done'), P.skel('foo bar'), P.skel('((((')] + _pipe.pick(ctx, 1, len(P.SKELS), 7) if q else range(len(P.SKELS)), vis=(4,) if q else (0, 4, 8))
     xh.run_conditions(ctx, C)
